@@ -1,6 +1,11 @@
 """C12 — relayer batching: model (coq/theories/Relayer/Batch*.v) vs
 crates/astria-sequencer-relayer (write/conversion.rs + the pending-block hand-over of
-BlobSubmitter::run), with real SequencerBlocks and conductor-style decoding of the blobs."""
+BlobSubmitter::run), with real SequencerBlocks and conductor-style decoding of the blobs.
+  * conversion level (all case names but `run*`): the batching pieces driven op by op
+    (relayer/write/conversion/verif.rs);
+  * run level (`case run*`): the real BlobSubmitter::run select loop against an in-process Celestia
+    app (relayer/write/verif.rs, the C11 system hook + `feed` / `csizes`): blocks around the
+    payload limit arrive while a submission is in flight and a Full-rejected block is parked."""
 from collections import Counter
 
 from common import CaseCheck, run_harness, run_model, split_cases
@@ -8,10 +13,44 @@ from common import CaseCheck, run_harness, run_model, split_cases
 MAX = 1_000_000
 CRATE = "astria-sequencer-relayer"
 TEST = "relayer::write::conversion::verif::drive"
+TEST_RUN = "relayer::write::verif::drive"
+BIG = 600_000          # two of these (incompressible) do not fit one payload, one does
 
 
 def kvs(line):
     return dict(x.split("=", 1) for x in line.split()[1:] if "=" in x)
+
+
+def is_run(case):
+    return case[0].split()[1].startswith("run")
+
+
+def run_events(line):
+    ev = kvs(line).get("ev", "-")
+    return [] if ev == "-" else ev.split(";")
+
+
+def run_submissions(il):
+    """The submissions Celestia was sent, in order of first arrival.  A BlobTx carrying the same height list as
+    the one before it is a retry of the same submission (possibly a new transaction: new fee, new hash) as long
+    as the relayer has not recorded a completed submission in between.  Each entry: (heights, [tx indices])."""
+    subs = []
+    seen = set()
+    completions = 0
+    for l in il[1:]:
+        for e in run_events(l):
+            p = e.split(":")
+            if e.startswith("file:started:"):
+                completions += 1
+            if p[0] != "bcast" or p[1] in seen:
+                continue
+            seen.add(p[1])
+            hs = [int(h) for h in p[2].split("+") if h]
+            if subs and subs[-1][0] == hs and subs[-1][2] == completions:
+                subs[-1][1].append(p[1])
+            else:
+                subs.append((hs, [p[1]], completions))
+    return [(hs, idx) for hs, idx, _ in subs]
 
 
 class C12(CaseCheck):
@@ -22,13 +61,28 @@ class C12(CaseCheck):
             "data tuned around MAX_PAYLOAD_SIZE_BYTES with a calibration run (single block at MAX-2000..MAX+200, pairs and "
             "triples whose sum crosses the limit, big filtered-out rollups, oversized single block, oversized pending block); "
             "every script ends by draining; non-trivial = a refusal (full/oversized), a filter that drops data, or >= 2 "
-            "non-empty submissions; distinct = distinct script text")
+            "non-empty submissions; distinct = distinct script text.  Run level (`case run*`): the real BlobSubmitter::run "
+            "(spawned task, paused tokio clock, in-process Celestia app) is handed consecutive heights; a first submission is "
+            "broadcast and its confirmation withheld, then two ~600 kB incompressible blocks (the second is refused as Full "
+            "and parked in pending_block) and 1-3 further blocks (600 kB / a few bytes, in one hand-over or after a pause, "
+            "optionally after an unanswered / timed-out BroadcastTx that is retried) arrive while it is in flight; then all "
+            "submissions are confirmed one by one.  Monitor on what reached Celestia; correspondence = the run loop replayed "
+            "on the model's step with the loop's priorities (finished submission, take, recv) and the real payload sizes "
+            "(`csizes`), compared on the partition of heights into submissions; non-trivial (run) = >= 2 blocks were handed "
+            "over while a submission was in flight and one of them could not join the open batch")
     assumptions = [
         "the compressed size of a candidate payload is an input of the model (taken from the real brotli output)",
         "a rollup's Celestia namespace is identified with its rollup id (no 10-byte prefix collision among the ids used)",
         "block content tokens are SHA-256 digests of the raw protobuf the conductor must get back, built from the "
         "SequencerBlock accessors (not through split_for_celestia)",
         "brotli / prost / Blob::new errors (TryIntoPayloadError) are not modelled; the harness reports them as res=err",
+        "run level: tokio scheduling is replaced by the driver's 100 ms virtual-time steps; the scripts hand blocks over "
+        "only while no submission can complete (confirmation withheld, or nothing in flight after a settling pause), so "
+        "that the order of recv / take / completion in the loop is determined by the script; the model replay is skipped "
+        "(monitor only) for a case whose trace does not show this discipline (an `until` that timed out, an exit)",
+        "run level: a block's rollup data and proofs are not decoded again (conversion level does that); a submission is "
+        "identified by the height list of its sequencer-namespace blob; BlobTxs repeating the previous height list are "
+        "retries of the same submission",
     ]
 
     # -- generation -----------------------------------------------------------------------------
@@ -121,18 +175,131 @@ class C12(CaseCheck):
                                     rng.choice([1, 1, 1, 0]))
                                    for _ in range(rng.choice([1, 1, 2]))])
                 big("rnd%d" % k, filt(), blocks, takes_between=True)
+        cases += self.gen_run(rng, tier, seed)
+        return cases
+
+    def gen_run(self, rng, tier, seed):
+        """scenarios for the real BlobSubmitter::run (hook relayer/write/verif.rs)"""
+        cases = []
+
+        def spec(kind):
+            if kind == "B":
+                return "%d:%d" % (BIG + rng.randint(-20_000, 20_000), seed())
+            if kind == "m":
+                return "%d:%d" % (rng.choice([150_000, 250_000, 350_000]), seed())
+            return "%d:%d" % (rng.choice([1, 40, 2000]), seed())
+
+        def scenario(name, init, first, parked, later, split, plan, more=""):
+            """first: the block(s) of the submission whose confirmation is withheld; parked: blocks handed over while
+            it is in flight (BB: the second does not fit and is parked); later: 1-3 further blocks; split: hand `later`
+            over after a pause instead of together with `parked`; plan: outcomes of the first BroadcastTx calls;
+            more: blocks handed over after the first submission completed (the next one is in flight by then)"""
+            lines = ["case run%s init=%s vary=%d" % (name, init, rng.randint(0, 1)), "start"]
+            if plan:
+                lines.append("plan " + plan)
+            lines += ["feed " + " ".join(spec(k) for k in first), "until bcast 30000"]
+            if split:
+                lines += ["feed " + " ".join(spec(k) for k in parked), "run %d" % rng.choice([300, 1000, 2500]),
+                          "feed " + " ".join(spec(k) for k in later)]
+            else:
+                lines.append("feed " + " ".join(spec(k) for k in parked + later))
+            n = len(first) + len(parked) + len(later) + len(more)
+            lines.append("run %d" % rng.choice([500, 1500, 3000]))
+            # release: one submission after the other is confirmed (a round is wasted while a lost BlobTx is retried)
+            for k in range(n + 2):
+                lines += ["confirm last %d" % (100 + 3 * k + rng.randint(0, 2)), "until started 90000", "run 500"]
+                if k == 0 and more:
+                    lines += ["feed " + " ".join(spec(x) for x in more), "run 1000"]
+            lines += ["run 5000", "csizes"]
+            return lines
+
+        fixed = [   # name, init, first, parked, later, split, plan
+            ("0", "fresh", "s", "BB", "B", False, ""),            # pending overwritten -> a block lost
+            ("1", "fresh", "s", "BB", "s", True, ""),             # small block overtakes the parked one
+            ("2", "started:7:20", "B", "BB", "sB", False, "", "Bs"),
+            ("3", "fresh", "s", "BB", "Bs", True, "hang"),        # first BroadcastTx unanswered, lost, retried
+        ]
+        for f in fixed:
+            cases.append(scenario(*f))
+        nrand = 1 if tier == "quick" else 40
+        for k in range(nrand):
+            init = rng.choice(["fresh", "started:%d:%d" % (rng.randint(1, 90), rng.randint(1, 500))])
+            first = rng.choice(["s", "B", "ss", "m"])
+            parked = rng.choice(["BB", "BB", "mBB", "sBB", "BmB", "mmB"])
+            later = "".join(rng.choice("BBsm") for _ in range(rng.randint(1, 3)))
+            plan = rng.choice(["", "", "", "hang", "tol", "err", "to"])
+            more = "".join(rng.choice("Bsm") for _ in range(rng.choice([0, 0, 1, 2])))
+            cases.append(scenario("x%d" % k, init, first, parked, later, rng.random() < 0.5, plan, more))
         return cases
 
     # -- execution ------------------------------------------------------------------------------
     def impl(self, cases):
-        text = "\n".join("\n".join(c) for c in cases) + "\n"
-        return split_cases(run_harness(CRATE, TEST, text, "c12", timeout=7200))
+        out = [None] * len(cases)
+        for run_flag, test, tag in ((False, TEST, "c12"), (True, TEST_RUN, "c12r")):
+            idx = [i for i, c in enumerate(cases) if is_run(c) == run_flag]
+            if not idx:
+                continue
+            text = "\n".join("\n".join(cases[i]) for i in idx) + "\n"
+            res = split_cases(run_harness(CRATE, test, text, tag, timeout=7200))
+            if len(res) != len(idx):
+                return res   # length mismatch is reported by the caller
+            for i, r in zip(idx, res):
+                out[i] = r
+        return out
+
+    def run_disciplined(self, case, il):
+        """the trace shows the script's assumption: whenever blocks are handed over, no submission can complete
+        (every BlobTx confirmed on Celestia so far has been seen completing by the relayer: as many `started` writes of
+        the state file as successful `confirm`s), the submitter did not exit, nothing panicked"""
+        if len(il) != len(case) or not il[-1].startswith("csizes ") or kvs(case[0]).get("init", "fresh").startswith("prepared"):
+            return False
+        confirms = completions = 0
+        for l in il[1:]:
+            if "panic" in l.split():
+                return False
+            ev = run_events(l)
+            if any(e.startswith("exit:") for e in ev) or l.startswith("crash"):
+                return False
+            if l.startswith(("feed ", "fetch ")) and (ev or confirms != completions):
+                return False
+            completions += sum(1 for e in ev if e.startswith("file:started:"))
+            if l.startswith("confirm ") and kvs(l).get("res") == "ok":
+                confirms += 1
+        return True
+
+    def run_model_input(self, case, il):
+        """the model's view of a run-level trace: payload size classes, hand-overs, completions"""
+        lines = [il[0], "sizes " + il[-1].split()[1]]
+        for l in il[1:]:
+            t = l.split()
+            # a completion noticed in the same step as a hand-over comes first (the loop looks at the
+            # submission in flight before it looks at the channel); run_disciplined excludes it anyway
+            for e in run_events(l):
+                if e.startswith("file:started:"):
+                    lines.append("done")
+            if t[0] in ("feed", "fetch"):
+                kv = kvs(l)
+                n, first = int(kv["n"]), int(kv["first"])
+                if n:
+                    lines.append("feed " + " ".join(str(first + k) for k in range(n)))
+        return lines
 
     def model_all(self, cases, impl):
-        text = "\n".join("\n".join(il) for il in impl) + "\n"
-        return split_cases(run_model("c12", text))
+        blocks, skipped = [], set()
+        for i, (c, il) in enumerate(zip(cases, impl)):
+            if not is_run(c):
+                blocks.append(il)
+            elif self.run_disciplined(c, il):
+                blocks.append(self.run_model_input(c, il))
+            else:
+                skipped.add(i)
+        text = "\n".join("\n".join(b) for b in blocks) + "\n"
+        res = iter(split_cases(run_model("c12", text)))
+        return [None if i in skipped else next(res) for i in range(len(cases))]
 
     def canon(self, lines):
+        if lines and lines[0].split()[1].startswith("run"):
+            return [lines[0]] + ["sub " + "+".join(map(str, hs)) for hs, _ in run_submissions(lines)]
         drop_recv = ("in=", "rd=", "csize=")
         drop_take = ("real=", "bad=", "csize2=")
         out = []
@@ -143,7 +310,66 @@ class C12(CaseCheck):
         return out
 
     # -- the property on the implementation's observations alone -------------------------------------
+    def monitor_run(self, case, il):
+        """exactly once / increasing order / nothing lost, on what reached the harness's Celestia"""
+        fails = []
+        fed = []
+        exited = False
+        for l in il[1:]:
+            t = l.split()
+            if "panic" in t:
+                fails.append("panic: %r" % l)
+                continue
+            if t[0] in ("feed", "fetch"):
+                kv = kvs(l)
+                fed += list(range(int(kv["first"]), int(kv["first"]) + int(kv["n"])))
+            exited = exited or any(e.startswith("exit:") for e in run_events(l))
+        if any(a >= b for a, b in zip(fed, fed[1:])):
+            return fails      # a restart handed heights over again: not a run-level scenario
+        subs = run_submissions(il)
+        where = " (submissions so far: %s)" % [hs for hs, _ in subs]
+        seen = {}
+        flat = []
+        for k, (hs, _) in enumerate(subs):
+            if not hs:
+                fails.append("empty submission: BlobTx without a sequencer block" + where)
+            for h in hs:
+                if h not in fed:
+                    fails.append("block submitted that was never handed over: height %d in submission %d%s" % (h, k, where))
+                elif h in seen:
+                    fails.append("block submitted twice: height %d in submissions %d and %d%s" % (h, seen[h], k, where))
+                seen.setdefault(h, k)
+                flat.append(h)
+        once = [h for i, h in enumerate(flat) if h not in flat[:i]]
+        for a, b in zip(once, once[1:]):
+            if a > b:
+                fails.append("height order violated: height %d is submitted before height %d%s" % (a, b, where))
+                break
+        # a handed-over block below the greatest submitted height that is in no submission can only be lost or late
+        if once and not fails:
+            skipped = [h for h in fed if h < max(once) and h not in seen]
+            if skipped:
+                fails.append("block skipped: heights %s are in no submission although %d is%s" % (skipped[:5], max(once), where))
+        # at the end: everything confirmed, relayer alive and idle for 5 s -> nothing handed over may be outstanding
+        last = il[-2] if il[-1].startswith("csizes") and len(il) > 2 else il[-1]
+        txs = kvs(last).get("txs", "-")
+        states = [] if txs == "-" else [t.split(":")[2] for t in txs.split(",")]
+        quiet = last.startswith("run ms=") and int(kvs(last)["ms"]) >= 5000 and kvs(last).get("ev") == "-"
+        # no transaction is waiting on Celestia, and the relayer itself has recorded its newest submission as completed
+        # (state file `started` with that submission's greatest height): nothing is in flight
+        f = kvs(last).get("file", "").split(":")
+        settled = all(s != "pending" for s in states) and bool(subs) and subs[-1][0] and f[0] == "started" and \
+            len(f) == 3 and int(f[2]) == max(subs[-1][0])
+        if quiet and settled and not exited and not fails:
+            missing = [h for h in fed if h not in seen]
+            if missing:
+                fails.append("handed-over blocks lost: heights %s are in no submission after every submission was "
+                             "confirmed and the relayer has been idle for 5 s%s" % (missing[:5], where))
+        return fails
+
     def monitor(self, case, il):
+        if is_run(case):
+            return self.monitor_run(case, il)
         fails = []
         f = kvs(case[0]).get("filter", "-")
         filt = set() if f == "-" else set(f.split(","))
@@ -231,16 +457,72 @@ class C12(CaseCheck):
             fails.append("received blocks lost: %d received, %d submitted after draining" % (len(received), emitted))
         return fails
 
+    def shrink(self, case, kind):
+        if not is_run(case):
+            return CaseCheck.shrink(self, case, kind)
+        # every evaluation of a run-level script is a process of its own running for seconds: only the
+        # release rounds are worth dropping
+        from common import ddmin
+        head, ops = case[0], case[1:]
+
+        def fails(sub):
+            try:
+                r = self.evaluate([[head] + sub])
+            except Exception:
+                return False
+            return any(k == kind for k, _ in r[0][3])
+        try:
+            return [head] + ddmin(ops, fails, max_runs=8)
+        except Exception:
+            return case
+
     def nontrivial(self, case, il):
+        if is_run(case):
+            return self.run_profile(il)["parked"]
         f = kvs(case[0]).get("filter", "-")
         subs = sum(1 for l in il if l.startswith("take size="))
         return any("res=full" in l or "res=oversized" in l or "readd=oversized" in l for l in il) or subs >= 2 or \
             (f != "-" and subs >= 1)
 
+    def run_profile(self, il):
+        """what a run-level trace exercised, from the observations: blocks handed over while a submission was
+        unconfirmed, and whether one of them was left out of the next submission although handed over before it
+        was taken (= it was refused as Full and parked)"""
+        inflight = False
+        windows = [[]]      # per submission in flight: the heights handed over meanwhile
+        for l in il[1:]:
+            t = l.split()
+            for e in run_events(l):
+                if e.startswith("bcast:"):
+                    inflight = True
+                elif e.startswith("file:started:"):
+                    inflight = False
+                    windows.append([])
+            if t[0] == "feed" and inflight:
+                kv = kvs(l)
+                windows[-1] += list(range(int(kv["first"]), int(kv["first"]) + int(kv["n"])))
+        subs = [hs for hs, _ in run_submissions(il)]
+        parked = False
+        for during in windows:
+            for hs in subs:
+                inside = [h for h in during if h in hs]
+                if inside and any(h not in hs and h > max(inside) for h in during):
+                    parked = True
+        return {"during": sum(len(w) for w in windows), "parked": parked, "subs": len(subs)}
+
     def stats(self, cases, impl):
         c = Counter()
         sizes = []
-        for il in impl:
+        for case, il in zip(cases, impl):
+            if is_run(case):
+                pr = self.run_profile(il)
+                c["run_cases"] += 1
+                c["run_blocks_handed_over_while_in_flight"] += pr["during"]
+                c["run_cases_with_parked_block"] += pr["parked"]
+                c["run_submissions"] += pr["subs"]
+                c["run_cases_replayed_on_model"] += self.run_disciplined(case, il)
+                c["run_retried_blobtx"] += sum(len(idx) - 1 for _, idx in run_submissions(il))
+                continue
             for l in il[1:]:
                 t = l.split()
                 if "halted" in t:
